@@ -196,19 +196,29 @@ func c18Sparse1(ki int, s int) mc.Harness {
 		p0 := x.All("pos0", k.n)
 		v0 := x.All("val0", len(c18Menu))
 		sup := 1 + x.All("support", s)
-		flush := x.All("flush", 2) == 1
-		ba := guardmem.Alloc(4*k.n, flush, 32)
-		bg := guardmem.Alloc(4*k.n, flush, 32)
+		place := x.All("placement", 5) // start-flush, end-flush (both 32-byte aligned), and three misaligned bases
+		flush := place == 1
+		extra := 0
+		if place >= 2 {
+			extra = 32
+		}
+		ba := guardmem.Alloc(4*k.n+extra, flush, 32)
+		bg := guardmem.Alloc(4*k.n+extra, flush, 32)
 		defer ba.Free()
 		defer bg.Free()
 		fs := newFailSet(k.name)
 		a, g := ba.Float32s(), bg.Float32s()
+		if place >= 2 {
+			// a slice of the same values at a base that is only 4-, 8- or 16-byte aligned
+			off := []int{1, 2, 4}[place-2]
+			a, g = a[off:off+k.n:off+k.n], g[off:off+k.n:off+k.n]
+		}
 		n := enumRest(k.n, sparse{[]int{p0}, []float32{c18Menu[v0]}}, sup-1, c18Menu, func(sp sparse) { c18Eval1(k, a, g, sp, fs) })
 		canaryCheck(fs, k.name, ba, bg)
 		x.Bulk = n - 1
 		x.Trivial = n == 0
 		x.Outcome = fmt.Sprintf("%s/s%d", k.name, sup)
-		x.InputID = hashBytes([]byte{byte(ki), byte(sup), byte(p0), byte(p0 >> 8), byte(v0), b2i(flush)})
+		x.InputID = hashBytes([]byte{byte(ki), byte(sup), byte(p0), byte(p0 >> 8), byte(v0), byte(place)})
 		c18Flush(fs, x, int(n))
 	}
 }
@@ -723,7 +733,7 @@ func init() {
 			}
 			return []mc.Space{
 				{Name: "dct64-sparse", H: c18Sparse1(0, s64), NoLevels: true, SplitDepth: 1,
-					Rule: fmt.Sprintf("every 64-vector with support <= %d over the 16-value menu {+-1e-6,+-1e-3,+-0.5,+-1,+-3,+-255,+-1e3,+-1e6}; assembly vs portable bitwise, portable vs float64 DCT-II within 1e-5*L1; guard pages at both flush positions", s64)},
+					Rule: fmt.Sprintf("every 64-vector with support <= %d over the 16-value menu {+-1e-6,+-1e-3,+-0.5,+-1,+-3,+-255,+-1e3,+-1e6}; assembly vs portable bitwise, portable vs float64 DCT-II within 1e-5*L1; guard pages at both flush positions, plus bases that are only 4-, 8- and 16-byte aligned", s64)},
 				{Name: "dct256-sparse", H: c18Sparse1(1, s256), NoLevels: true, SplitDepth: 1,
 					Rule: fmt.Sprintf("every 256-vector with support <= %d over the same menu", s256)},
 				{Name: "dct2d64-sparse", H: c18Sparse2D(pairs), NoLevels: true, SplitDepth: 1,
